@@ -111,7 +111,10 @@ def c17(tier):
         case = 0
         for name, (files, inp, should_ok, stage) in scen.items():
             for spelling in SPELLINGS:
-                for out_mode in ("explicit", "explicit-relative", "default"):
+                for out_mode in ("explicit", "explicit-relative", "default", "explicit-other-extension", "explicit-no-extension",
+                                 "explicit-two-extensions"):
+                    if out_mode.startswith("explicit-") and out_mode != "explicit-relative" and spelling not in ("absolute", "bare-name"):
+                        continue
                     for pre in ("absent", "shorter", "longer"):
                         case += 1
                         base = os.path.join(root, f"case{case}")
@@ -143,9 +146,30 @@ def c17(tier):
                         elif out_mode == "explicit-relative":
                             out_abs = os.path.join(cwd, "generated_out.rs")
                             out_arg = "generated_out.rs"
+                        elif out_mode == "explicit-other-extension":
+                            # --output names the file; a hand-written gen.rs next to it is nobody's business
+                            out_abs = os.path.join(base, "out", "gen.inc")
+                            os.makedirs(os.path.dirname(out_abs))
+                            decoy = os.path.join(base, "out", "gen.rs")
+                            out_arg = out_abs
+                        elif out_mode == "explicit-no-extension":
+                            out_abs = os.path.join(cwd, "generated_out")
+                            decoy = os.path.join(cwd, "generated_out.rs")
+                            out_arg = "generated_out"
+                        elif out_mode == "explicit-two-extensions":
+                            out_abs = os.path.join(base, "out.v2", "gen.rs.new")
+                            os.makedirs(os.path.dirname(out_abs))
+                            decoy = os.path.join(base, "out.v2", "gen.rs")
+                            out_arg = out_abs
                         else:
                             out_abs = stem + ".rs"
                             out_arg = None
+                        if out_mode in ("explicit-other-extension", "explicit-no-extension", "explicit-two-extensions"):
+                            with open(decoy, "wb") as f:
+                                f.write(b"// hand written, not to be touched\n")
+                            decoy_sha = _sha(decoy)
+                        else:
+                            decoy = None
                         new_len = len(ref[name]) if should_ok else 15000
                         if pre == "shorter":
                             with open(out_abs, "wb") as f:
@@ -175,6 +199,8 @@ def c17(tier):
                         outcome_table[key] = outcome_table.get(key, 0) + 1
                         if len(samples) < 6 and case % 37 == 1:
                             samples.append({k: ctx[k] for k in ("scenario", "spelling", "arg", "output", "pre_existing", "exit")})
+                        if decoy is not None and _sha(decoy) != decoy_sha:
+                            v.violation(f"C17|other-file-changed|output={out_mode}", dict(ctx, file=os.path.relpath(decoy, base)))
                         if new_files - expected_new:
                             v.violation(f"C17|stray-file|scenario={'valid' if should_ok else 'failing'}|output={out_mode}",
                                         dict(ctx, stray=sorted(new_files - expected_new)))
@@ -203,7 +229,8 @@ def c17(tier):
         "rule": "full matrix: 14 input scenarios (6 succeed, among them upper-case, double and missing file extensions; 8 fail at the stages locate-input, read-siblings, parse, import, resolve, "
                 "binding) x 5 path spellings/working directories (absolute from an unrelated cwd, dir/name from the parent, ./name and bare "
                 "name from the input directory, ../in/name from a sibling directory) x output {--output absolute, --output relative to cwd, "
-                "default} x pre-existing output {absent, shorter, longer}. Every cell is one run of the built binary in a fresh scratch tree; "
+                "default; for two of the spellings also --output with another extension, with none and with two, each next to a "
+                "hand-written file of the name that replacing the extension by .rs would give} x pre-existing output {absent, shorter, longer}. Every cell is one run of the built binary in a fresh scratch tree; "
                 "distinct_nontrivial = distinct cells run. Oracles: exit status, output bytes == library bytes (zdrive on the same directory), "
                 "no stale tail, no stray files, failing runs leave a pre-existing output byte-identical",
         "exhaustive": True, "exit_status_by_scenario": outcome_table, "samples": samples,
